@@ -89,7 +89,10 @@ def o111(ctx):
                 ctx.finding(RD, f"dispatch of .{ext}", f"a .{ext} file must be read with {FAMILY[ext]} (found {libs})", fn, m)
             rc_ = _casts(t)
             ctx.count(1)
-            if rc_ and getattr(ctx, "prop", "C11") != "C11" and not any(c_.op == "call" and c_.args[0] == "reinterpret" for c_ in rc_):
+            narrowing_ = lambda c_: any(x.op == "const" and str(x.args[0]) in ("ref:numpy.float32", "ref:numpy.single", "ref:numpy.float16", "ref:numpy.half", "ref:numpy.int8",
+                                                                                "ref:numpy.uint8", "ref:builtins.int", "ref:numpy.int16", "ref:numpy.int32")
+                                        and not tm.contains(c_, lambda y: y.op == "ite") for x in tm.walk(c_))
+            if rc_ and getattr(ctx, "prop", "C11") != "C11" and not any((c_.op == "call" and c_.args[0] == "reinterpret") or narrowing_(c_) for c_ in rc_):
                 # for the properties that only READ maps through this function the element type is not part of the statement; whether a conversion
                 # keeps every value (a widening) is not decided here
                 raise Unsupported(f"cryomap.read converts the data of a .{ext} file to {tm.show(rc_[0])[:60]}: whether every value survives is not decided", fn)
